@@ -312,7 +312,7 @@ def _split_trace(trace_path, shards, workdir):
     return paths
 
 
-def validate_traces(rep, area, module, cfg, trace_path, workdir, cases_by_run=None, timeout=1500, xmx="3g", shards=None):
+def validate_traces(rep, area, module, cfg, trace_path, workdir, cases_by_run=None, timeout=900, xmx="3g", shards=None):
     """Runs the Ref monitor (TLC, trace mode) over an NDJSON trace file holding many runs separated
     by Reset events. Every REJECT is handed to rep.reject with the run's case as replay object.
     Large traces are split at run boundaries and validated by several JVMs in parallel."""
@@ -364,7 +364,7 @@ class Area:
             self.bin = build_harness(self.rep.workdir)
         return self.bin
 
-    def run_cases(self, cases, tag, extra_args=(), timeout=1500, count=True, rep=None):
+    def run_cases(self, cases, tag, extra_args=(), timeout=900, count=True, rep=None):
         """cases -> conform replay -> trace -> TLC validation against the Ref monitor."""
         rep = rep or self.rep
         wd = self.rep.workdir
